@@ -160,4 +160,430 @@ theorem bc_ok_inv {fuel : Nat} {k : Consts K} {s s' : GState K} {q : Params K}
       simp only [Prod.mk.injEq, and_true] at h
       exact ⟨E, res, rfl, hc, h.symm⟩
 
+/-! ## 7. the result -/
+
+/-- what the effective inputs are, in terms of the stored objects: the three objects are the
+    stored ones; with `n` the largest of the three dimensions, the local trust is grown to
+    `n × n` (same cells), pre-trust and previous global trust are padded to `n`; then pre-trust
+    and previous global trust are canonicalised (`p3`, `t3`), the distrust is split off and both
+    matrices are canonicalised (`c4`, `d4`).  Without a pre-trust id, `p3` is uniform. -/
+theorem bc_effective_spec {k : Consts K} {s : GState K} {q : Params K} {E : BcEff K}
+    (h : bcEffective k s q = some E) :
+    lookup s.mats q.localTrustId = some E.ltm ∧
+    (q.preTrustId = "" → E.pre = none) ∧
+    (q.preTrustId ≠ "" → ∃ pt, lookup s.vecs q.preTrustId = some pt ∧ E.pre = some pt) ∧
+    lookup s.vecs q.globalTrustId = some E.gt ∧
+    E.c2.major = max E.ltm.m.major (max (preDim E.pre) E.gt.v.dim) ∧
+    E.c2.minor = max E.ltm.m.major (max (preDim E.pre) E.gt.v.dim) ∧
+    E.p2 = ⟨max E.ltm.m.major (max (preDim E.pre) E.gt.v.dim), preEntries E.pre⟩ ∧
+    E.t2 = ⟨max E.ltm.m.major (max (preDim E.pre) E.gt.v.dim), E.gt.v.entries⟩ ∧
+    (GoodM E.ltm → WFM E.c2 ∧ HiddenClean E.c2 ∧ denRows E.c2.rows = denRows E.ltm.m.rows) ∧
+    E.p3 = canonicalizeTrustVector E.p2 ∧ E.t3 = canonicalizeTrustVector E.t2 ∧
+    (∃ c3 d3, extractDistrust E.c2 = .ok (c3, d3) ∧
+      canonicalizeLocalTrust c3 (some E.p3) = .ok E.c4 ∧
+      canonicalizeLocalTrust d3 none = .ok E.d4) ∧
+    E.a = q.alpha.getD k.half ∧ E.e = q.epsilon.getD (k.epsNum / (E.c2.major : K)) ∧
+    (q.preTrustId = "" →
+      E.p3 = ⟨E.c2.major, uniformEntries E.c2.major⟩ ∧
+      E.p3 = canonicalizeTrustVector (Vec.new E.c2.major [])) := by
+  obtain ⟨h1, hsq, hp, hg, _, e1, e2, e3, _, e5, e6, e7, e8, e9⟩ :=
+    bcPrep_ok (bcEffective_eq_some.mp h)
+  obtain ⟨a1, a2, a3⟩ := bcAlignPre_spec E.ltm.m hsq E.ltm.ts E.pre
+  obtain ⟨b1, b2, b3, b4⟩ := bcAlignGt_spec (bcAlignPre E.ltm.m E.ltm.ts E.pre).1
+    (bcAlignPre E.ltm.m E.ltm.ts E.pre).2.1 E.gt (by rw [a1, a3]) (by rw [a2, a3])
+  have hn : max (bcAlignPre E.ltm.m E.ltm.ts E.pre).2.1.dim E.gt.v.dim =
+      max E.ltm.m.major (max (preDim E.pre) E.gt.v.dim) := by rw [a3]; exact Nat.max_assoc _ _ _
+  rw [hn] at b1 b2 b3 b4
+  rw [← e1] at b1 b2
+  rw [← e2] at b3
+  rw [← e3] at b4
+  have hpre0 : q.preTrustId = "" → E.pre = none := by
+    intro h0
+    unfold bcLoadPre at hp
+    have : (q.preTrustId == "") = true := by rw [h0]; rfl
+    rw [this] at hp
+    simp only [if_true, Option.some.injEq] at hp
+    exact hp.symm
+  have hp2 : E.p2 = ⟨max E.ltm.m.major (max (preDim E.pre) E.gt.v.dim), preEntries E.pre⟩ := by
+    rw [b3, a3]
+  refine ⟨h1, hpre0, ?_, hg, b1, b2, hp2, b4, ?_, e5, e6, e7, e8, e9, ?_⟩
+  · intro hne
+    unfold bcLoadPre at hp
+    have : (q.preTrustId == "") = false := beq_false_of_ne hne
+    rw [this] at hp
+    simp only [Bool.false_eq_true, if_false] at hp
+    cases hl : lookup s.vecs q.preTrustId with
+    | none => rw [hl] at hp; cases hp
+    | some pt => rw [hl] at hp; simp only [Option.some.injEq] at hp; exact ⟨pt, rfl, hp.symm⟩
+  · intro hgood
+    rw [e1]
+    exact bcAlign_den hgood.1 hgood.2.1 hsq E.ltm.ts E.pre E.gt
+  · intro h0
+    have hnone := hpre0 h0
+    have : E.p2 = ⟨E.c2.major, []⟩ := by rw [hp2, b1, hnone]; rfl
+    constructor
+    · rw [e5, this]
+      exact C04.canonTV_uniform _ (by simp)
+    · rw [e5, this]; rfl
+
+/-- the pre-trust used when no pre-trust id is given (`sparse.NewVector(cDim, nil)`,
+    canonicalised) is the uniform distribution -/
+theorem uniform_pretrust (n : Nat) :
+    canonicalizeTrustVector (Vec.new n ([] : List (Entry K))) = ⟨n, uniformEntries n⟩ :=
+  C04.canonTV_uniform ⟨n, []⟩ (by simp)
+
+/-- **Result.**  On `ok` the effective inputs `E` exist and `compute` succeeded on them,
+    warm-started from `E.t3` (the canonicalised previous content of the global trust vector),
+    with `alpha`, `epsilon`, `max_iterations` as requested (defaults `k.half`,
+    `k.epsNum / n`, unlimited); the global trust vector now holds the discounted scores
+    `discountTrustVector res.t E.d4`, and a distinct, existing positive-only vector holds the
+    undiscounted scores `res.t`. -/
+theorem bc_result {fuel : Nat} {k : Consts K} {s s' : GState K} {q : Params K}
+    (h : basicCompute fuel k s (some q) = (s', .ok)) :
+    ∃ E res, bcEffective k s q = some E ∧
+      compute fuel E.c4 E.p3 E.a E.e (bcOpts q E) = .ok res ∧
+      (bcOpts q E).t0 = some E.t3 ∧
+      (bcOpts q E).maxIterations =
+        (if q.maxIterations = 0 then none else some (q.maxIterations : Int)) ∧
+      (bcOpts q E).minIterations = none ∧ (bcOpts q E).checkFreq = none ∧
+      (bcOpts q E).flatTail = 0 ∧ (bcOpts q E).numLeaders = 0 ∧
+      E.a = q.alpha.getD k.half ∧ E.e = q.epsilon.getD (k.epsNum / (E.c2.major : K)) ∧
+      (lookup s'.vecs q.globalTrustId).map (·.v) = some (discountTrustVector res.t E.d4) ∧
+      (∀ gtp, q.positiveGlobalTrustId ≠ "" → q.positiveGlobalTrustId ≠ q.globalTrustId →
+        lookup s.vecs q.positiveGlobalTrustId = some gtp →
+        (lookup s'.vecs q.positiveGlobalTrustId).map (·.v) = some res.t) := by
+  obtain ⟨E, res, hp, hc, rfl⟩ := bc_ok_inv h
+  obtain ⟨_, _, _, hg, _, _, _, _, _, _, _, _, e8, e9⟩ := bcPrep_ok hp
+  refine ⟨E, res, bcEffective_eq_some.mpr hp, hc, rfl, rfl, rfl, rfl, rfl, rfl, e8, e9, ?_, ?_⟩
+  · rw [bcWrite_gt s q E res hg]; rfl
+  · intro gtp h0 hne hl
+    rw [bcWrite_pos s q E res h0 hne hl]; rfl
+
+/-- the scores are the `res.iters`-th power iterate started from the previous (canonicalised)
+    global trust -/
+theorem bc_warm_start {fuel : Nat} {k : Consts K} {s s' : GState K} {q : Params K}
+    (h : basicCompute fuel k s (some q) = (s', .ok)) :
+    ∃ E res, bcEffective k s q = some E ∧
+      compute fuel E.c4 E.p3 E.a E.e (bcOpts q E) = .ok res ∧
+      res.t = ⟨E.c4.major, iterate E.c4.transpose.rows (Vec.scale E.a E.p3).entries
+        (1 - E.a) res.iters E.t3.entries⟩ := by
+  obtain ⟨E, res, hp, hc, _⟩ := bc_ok_inv h
+  exact ⟨E, res, bcEffective_eq_some.mpr hp, hc, (C05.compute_spec _ _ _ _ _ _ _ hc).2.1⟩
+
+/-! ## 8. timestamps -/
+
+/-- the timestamp of the named pre-trust (0 when none is named) -/
+def preTrustTs (s : GState K) (q : Params K) : Nat :=
+  if q.preTrustId = "" then 0 else ((lookup s.vecs q.preTrustId).map (·.ts)).getD 0
+
+/-- **Timestamps.**  On `ok` the global trust vector is stamped with the maximum of its old
+    timestamp and the timestamps of local trust and pre-trust; a distinct positive-only vector
+    with the maximum of its own old timestamp and all three input timestamps. -/
+theorem bc_timestamps {fuel : Nat} {k : Consts K} {s s' : GState K} {q : Params K}
+    (h : basicCompute fuel k s (some q) = (s', .ok)) :
+    ∃ ltm gt, lookup s.mats q.localTrustId = some ltm ∧
+      lookup s.vecs q.globalTrustId = some gt ∧
+      (lookup s'.vecs q.globalTrustId).map (·.ts) =
+        some (max gt.ts (max ltm.ts (preTrustTs s q))) ∧
+      (∀ gtp, q.positiveGlobalTrustId ≠ "" → q.positiveGlobalTrustId ≠ q.globalTrustId →
+        lookup s.vecs q.positiveGlobalTrustId = some gtp →
+        (lookup s'.vecs q.positiveGlobalTrustId).map (·.ts) =
+          some (max gtp.ts (max (max ltm.ts (preTrustTs s q)) gt.ts))) := by
+  obtain ⟨E, res, hp, hc, rfl⟩ := bc_ok_inv h
+  obtain ⟨h1, _, hpre, hg, _, _, _, _, ets, _⟩ := bcPrep_ok hp
+  have hpt : preTs E.pre = preTrustTs s q := by
+    unfold preTrustTs
+    obtain ⟨_, p0, p1, _⟩ := bc_effective_spec (bcEffective_eq_some.mpr hp)
+    by_cases h0 : q.preTrustId = ""
+    · rw [if_pos h0, p0 h0]; rfl
+    · obtain ⟨pt, hl, he⟩ := p1 h0
+      rw [if_neg h0, hl, he]; rfl
+  rw [hpt] at ets
+  refine ⟨E.ltm, E.gt, h1, hg, ?_, ?_⟩
+  · rw [bcWrite_gt s q E res hg, ets]
+    simp only [Option.map_some, Option.some.injEq]
+    omega
+  · intro gtp h0 hne hl
+    rw [bcWrite_pos s q E res h0 hne hl, ets]
+    rfl
+
+/-- in particular no timestamp is ever lowered, and the result is at least as new as every
+    input -/
+theorem bc_ts_never_lowered {fuel : Nat} {k : Consts K} {s s' : GState K} {q : Params K}
+    (h : basicCompute fuel k s (some q) = (s', .ok)) :
+    ∃ ltm gt gt', lookup s.mats q.localTrustId = some ltm ∧
+      lookup s.vecs q.globalTrustId = some gt ∧ lookup s'.vecs q.globalTrustId = some gt' ∧
+      gt.ts ≤ gt'.ts ∧ ltm.ts ≤ gt'.ts ∧ preTrustTs s q ≤ gt'.ts ∧
+      (∀ gtp, q.positiveGlobalTrustId ≠ "" → q.positiveGlobalTrustId ≠ q.globalTrustId →
+        lookup s.vecs q.positiveGlobalTrustId = some gtp →
+        ∃ gtp', lookup s'.vecs q.positiveGlobalTrustId = some gtp' ∧ gtp.ts ≤ gtp'.ts ∧
+          gt.ts ≤ gtp'.ts ∧ ltm.ts ≤ gtp'.ts ∧ preTrustTs s q ≤ gtp'.ts) := by
+  obtain ⟨ltm, gt, h1, h2, h3, h4⟩ := bc_timestamps h
+  cases hl : lookup s'.vecs q.globalTrustId with
+  | none => rw [hl] at h3; cases h3
+  | some gt' =>
+    rw [hl] at h3
+    simp only [Option.map_some, Option.some.injEq] at h3
+    refine ⟨ltm, gt, gt', h1, h2, rfl, by omega, by omega, by omega, ?_⟩
+    intro gtp a b c
+    have := h4 gtp a b c
+    cases hl' : lookup s'.vecs q.positiveGlobalTrustId with
+    | none => rw [hl'] at this; cases this
+    | some gtp' =>
+      rw [hl'] at this
+      simp only [Option.map_some, Option.some.injEq] at this
+      exact ⟨gtp', rfl, by omega, by omega, by omega, by omega⟩
+
+/-! ## 9. inputs are left unchanged -/
+
+/-- **Frame.**  Whatever the outcome, the trust matrices (content and timestamps) are unchanged,
+    and so is every vector other than the global trust and the positive-only vector — in
+    particular the pre-trust when its id differs from those two. -/
+theorem bc_inputs_unchanged (fuel : Nat) (k : Consts K) (s : GState K) (p : Option (Params K)) :
+    (basicCompute fuel k s p).1.mats = s.mats ∧
+    ∀ id, (∀ q, p = some q → id ≠ q.globalTrustId ∧ id ≠ q.positiveGlobalTrustId) →
+      lookup (basicCompute fuel k s p).1.vecs id = lookup s.vecs id := by
+  by_cases hok : (basicCompute fuel k s p).2 = .ok
+  · cases p with
+    | none => cases hok
+    | some q =>
+      have h : basicCompute fuel k s (some q) = ((basicCompute fuel k s (some q)).1, .ok) := by
+        rw [← hok]
+      obtain ⟨E, res, _, _, hw⟩ := bc_ok_inv h
+      rw [hw]
+      refine ⟨bcWrite_mats s q E res, fun id hid => ?_⟩
+      obtain ⟨a, b⟩ := hid q rfl
+      exact bcWrite_lookup_other s q E res a b
+  · rw [bc_error_unchanged fuel k s p hok]
+    exact ⟨rfl, fun _ _ => rfl⟩
+
+/-! ## 10. `max_iterations` -/
+
+/-- **max_iterations is honoured.** -/
+theorem bc_honours_max_iterations {fuel : Nat} {k : Consts K} {s s' : GState K} {q : Params K}
+    (h : basicCompute fuel k s (some q) = (s', .ok)) (hm : q.maxIterations ≠ 0) :
+    ∃ E res, bcEffective k s q = some E ∧
+      compute fuel E.c4 E.p3 E.a E.e (bcOpts q E) = .ok res ∧ res.iters ≤ q.maxIterations := by
+  obtain ⟨E, res, hp, hc, _⟩ := bc_ok_inv h
+  refine ⟨E, res, bcEffective_eq_some.mpr hp, hc, ?_⟩
+  have := (C05.compute_spec _ _ _ _ _ _ _ hc).2.2.1
+  have ho : (bcOpts q E).maxIterations = some (q.maxIterations : Int) := by
+    unfold bcOpts; simp [hm]
+  rw [ho] at this
+  simp only [Option.getD_some] at this
+  have := this (by exact_mod_cast hm)
+  exact_mod_cast this
+
+/-! ## 6b. the error codes, exactly -/
+
+theorem preOK_of_bcLoadPre {s : GState K} {q : Params K} {pre : Option (TV K)}
+    (h : bcLoadPre s q = some pre) : PreOK s q := by
+  unfold bcLoadPre at h
+  by_cases h0 : q.preTrustId = ""
+  · exact Or.inl h0
+  · have : (q.preTrustId == "") = false := beq_false_of_ne h0
+    rw [this] at h
+    simp only [Bool.false_eq_true, if_false] at h
+    cases hl : lookup s.vecs q.preTrustId with
+    | none => rw [hl] at h; cases h
+    | some pt => exact Or.inr (by rw [hl]; rfl)
+
+/-- the response code is the error of the preparation, else `Unavailable` when `compute` fails,
+    else `ok` -/
+theorem bc_code_eq (fuel : Nat) (k : Consts K) (s : GState K) (q : Params K) :
+    (basicCompute fuel k s (some q)).2 =
+      match bcPrep k s q with
+      | .error c => c
+      | .ok E =>
+        match compute fuel E.c4 E.p3 E.a E.e (bcOpts q E) with
+        | .error _ => .unavailable
+        | .ok _ => .ok := by
+  rw [basicCompute_eq]
+  cases bcPrep k s q with
+  | error c => rfl
+  | ok E =>
+    simp only
+    cases compute fuel E.c4 E.p3 E.a E.e (bcOpts q E) <;> rfl
+
+/-- the three ways the preparation fails -/
+theorem bcPrep_error_cases {k : Consts K} {s : GState K} {q : Params K} {c : Code}
+    (h : bcPrep k s q = .error c) :
+    (c = .notFound ∧ (lookup s.mats q.localTrustId = none ∨
+      ∃ ltm, lookup s.mats q.localTrustId = some ltm ∧ ltm.m.major = ltm.m.minor ∧
+        (¬ PreOK s q ∨ lookup s.vecs q.globalTrustId = none))) ∨
+    (c = .invalidArgument ∧ ∃ ltm gt, lookup s.mats q.localTrustId = some ltm ∧
+      ltm.m.major = ltm.m.minor ∧ PreOK s q ∧ lookup s.vecs q.globalTrustId = some gt ∧
+      BadParams q) ∨
+    c = .internal := by
+  unfold bcPrep at h
+  split at h
+  · rename_i h1
+    cases h; exact Or.inl ⟨rfl, Or.inl h1⟩
+  · rename_i ltm h1
+    split at h
+    · cases h; exact Or.inr (Or.inr rfl)
+    · rename_i hsq
+      have hsq : ltm.m.major = ltm.m.minor := by simpa using hsq
+      split at h
+      · rename_i hp
+        cases h
+        refine Or.inl ⟨rfl, Or.inr ⟨ltm, h1, hsq, Or.inl ?_⟩⟩
+        intro hpre
+        obtain ⟨pre, hp'⟩ := bcLoadPre_isSome hpre
+        rw [hp] at hp'; cases hp'
+      · rename_i pre hp
+        split at h
+        · rename_i hg
+          cases h
+          exact Or.inl ⟨rfl, Or.inr ⟨ltm, h1, hsq, Or.inr hg⟩⟩
+        · rename_i gt hg
+          simp only at h
+          split at h
+          · rename_i hb
+            cases h
+            refine Or.inr (Or.inl ⟨rfl, ltm, gt, h1, hsq, preOK_of_bcLoadPre hp, hg, ?_⟩)
+            exact (bcParamsOK_eq_false_iff q).mp (by simpa using hb)
+          · unfold bcFinish at h
+            simp only at h
+            split at h
+            · cases h; exact Or.inr (Or.inr rfl)
+            · split at h
+              · cases h
+              · cases h; exact Or.inr (Or.inr rfl)
+
+/-- **NotFound** is reported exactly when one of the referenced ids is unknown (ids are looked
+    up in the order local trust, pre-trust, global trust; a stored local trust is always
+    square) -/
+theorem bc_notFound_iff (fuel : Nat) (k : Consts K) (s : GState K) (q : Params K) :
+    (basicCompute fuel k s (some q)).2 = .notFound ↔
+      (lookup s.mats q.localTrustId = none ∨
+        ∃ ltm, lookup s.mats q.localTrustId = some ltm ∧ ltm.m.major = ltm.m.minor ∧
+          (¬ PreOK s q ∨ lookup s.vecs q.globalTrustId = none)) := by
+  constructor
+  · intro h
+    rw [bc_code_eq] at h
+    cases hp : bcPrep k s q with
+    | error c =>
+      rw [hp] at h
+      simp only at h
+      subst h
+      rcases bcPrep_error_cases hp with ⟨_, h'⟩ | ⟨h', _⟩ | h'
+      · exact h'
+      · cases h'
+      · cases h'
+    | ok E =>
+      rw [hp] at h
+      simp only at h
+      cases hc : compute fuel E.c4 E.p3 E.a E.e (bcOpts q E) <;> rw [hc] at h <;> cases h
+  · rintro (h | ⟨ltm, h1, hsq, h | h⟩)
+    · rw [bc_unknown_local_trust fuel k s q h]
+    · have hne : q.preTrustId ≠ "" := fun h0 => h (Or.inl h0)
+      have hl : lookup s.vecs q.preTrustId = none := by
+        cases hl : lookup s.vecs q.preTrustId with
+        | none => rfl
+        | some pt => exact absurd (Or.inr (by rw [hl]; rfl)) h
+      rw [bc_unknown_pre_trust fuel k s q ltm h1 hsq hne hl]
+    · by_cases hpre : PreOK s q
+      · rw [bc_unknown_global_trust fuel k s q ltm h1 hsq hpre h]
+      · have hne : q.preTrustId ≠ "" := fun h0 => hpre (Or.inl h0)
+        have hl : lookup s.vecs q.preTrustId = none := by
+          cases hl : lookup s.vecs q.preTrustId with
+          | none => rfl
+          | some pt => exact absurd (Or.inr (by rw [hl]; rfl)) hpre
+        rw [bc_unknown_pre_trust fuel k s q ltm h1 hsq hne hl]
+
+/-- **InvalidArgument** is reported exactly when the request has no `params`, or all ids are
+    known and `alpha` / `epsilon` is out of range -/
+theorem bc_invalidArgument_iff (fuel : Nat) (k : Consts K) (s : GState K) (q : Params K) :
+    (basicCompute fuel k s (some q)).2 = .invalidArgument ↔
+      ∃ ltm gt, lookup s.mats q.localTrustId = some ltm ∧ ltm.m.major = ltm.m.minor ∧
+        PreOK s q ∧ lookup s.vecs q.globalTrustId = some gt ∧ BadParams q := by
+  constructor
+  · intro h
+    rw [bc_code_eq] at h
+    cases hp : bcPrep k s q with
+    | error c =>
+      rw [hp] at h
+      simp only at h
+      subst h
+      rcases bcPrep_error_cases hp with ⟨h', _⟩ | ⟨_, h'⟩ | h'
+      · cases h'
+      · exact h'
+      · cases h'
+    | ok E =>
+      rw [hp] at h
+      simp only at h
+      cases hc : compute fuel E.c4 E.p3 E.a E.e (bcOpts q E) <;> rw [hc] at h <;> cases h
+  · rintro ⟨ltm, gt, h1, hsq, hpre, hg, hb⟩
+    rw [bc_bad_params fuel k s q ltm h1 hsq hpre gt hg hb]
+
+/-! ## non-vacuity at `K := ℚ` -/
+
+section examples
+
+-- `ℚ` carries two `Scalar` instances; the examples use the proof instance.
+attribute [local instance 10000] fieldScalar
+
+/-- two peers: 0 trusts 1; 1 trusts 0 and distrusts itself.  Stored objects: local trust "lt"
+    (ts 7), pre-trust "pt" = e₀ (ts 9), an empty global trust "gt" (ts 3) and an empty
+    positive-only vector "pos" (ts 20). -/
+private def exS : GState ℚ :=
+  { mats := [("lt", ⟨⟨2, 2, [[⟨1, 1⟩], [⟨0, 1⟩, ⟨1, -1⟩]], []⟩, 7⟩)],
+    vecs := [("gt", ⟨⟨0, []⟩, 3⟩), ("pt", ⟨⟨2, [⟨0, 1⟩]⟩, 9⟩), ("pos", ⟨⟨0, []⟩, 20⟩)] }
+private def exK : Consts ℚ := ⟨1/2, 1/1000000⟩
+private def exQ : Params ℚ := ⟨"lt", "pt", some (1/2), some (1/10), "gt", 0, "pos"⟩
+
+/-- observable part of a stored vector: timestamp, dimension, entries -/
+private def vview (s : GState ℚ) (id : String) : Option (Nat × Nat × List (Nat × ℚ)) :=
+  (lookup s.vecs id).map fun tv => (tv.ts, tv.v.dim, tv.v.entries.map fun e => (e.idx, e.val))
+
+/-- one run: discounted scores in "gt" (peer 1 loses its own distrust), undiscounted scores in
+    "pos"; "gt" is re-stamped 9 = max(3, 7, 9), "pos" keeps 20, "pt" is untouched -/
+example :
+    (basicCompute 100 exK exS (some exQ)).2 = .ok ∧
+    vview (basicCompute 100 exK exS (some exQ)).1 "gt" = some (9, 2, [(0, 11/16), (1, 0)]) ∧
+    vview (basicCompute 100 exK exS (some exQ)).1 "pos" = some (20, 2, [(0, 11/16), (1, 5/16)]) ∧
+    vview (basicCompute 100 exK exS (some exQ)).1 "pt" = some (9, 2, [(0, 1)]) := by
+  refine ⟨?_, ?_, ?_, ?_⟩ <;> decide +kernel
+
+private theorem exRun : basicCompute 100 exK exS (some exQ) =
+    ((basicCompute 100 exK exS (some exQ)).1, .ok) :=
+  Prod.ext rfl (by decide +kernel)
+
+example := bc_result exRun
+example (E : BcEff ℚ) (h : bcEffective exK exS exQ = some E) := bc_effective_spec h
+example : (bcEffective exK exS exQ).isSome = true := by
+  obtain ⟨E, _, h, _⟩ := bc_result exRun
+  rw [h]; rfl
+example := bc_inputs_unchanged 100 exK exS (some exQ)
+example := bc_warm_start exRun
+example := bc_timestamps exRun
+example := bc_ts_never_lowered exRun
+
+/-- `max_iterations = 2` stops earlier (after 2 iterations: 5/8 instead of 11/16) -/
+private theorem exRun2 : basicCompute 100 exK exS (some { exQ with maxIterations := 2 }) =
+    ((basicCompute 100 exK exS (some { exQ with maxIterations := 2 })).1, .ok) :=
+  Prod.ext rfl (by decide +kernel)
+example := bc_honours_max_iterations exRun2 (by decide)
+example : vview (basicCompute 100 exK exS (some { exQ with maxIterations := 2 })).1 "gt"
+    = some (9, 2, [(0, 5/8), (1, 0)]) := by decide +kernel
+
+/-- no pre-trust id (uniform pre-trust), no positive-only id, default `alpha` / `epsilon` -/
+private def exQ3 : Params ℚ := ⟨"lt", "", none, none, "gt", 0, ""⟩
+example : vview (basicCompute 100 exK exS (some exQ3)).1 "gt"
+    = some (7, 2, [(0, 1/2), (1, 0)]) := by decide +kernel
+
+/-- errors: out-of-range alpha, unknown ids, no params -/
+example : (basicCompute 100 exK exS (some { exQ with alpha := some 2 })).2 = .invalidArgument ∧
+    (basicCompute 100 exK exS (some { exQ with epsilon := some 0 })).2 = .invalidArgument ∧
+    (basicCompute 100 exK exS (some { exQ with globalTrustId := "zz" })).2 = .notFound ∧
+    (basicCompute 100 exK exS (some { exQ with preTrustId := "zz" })).2 = .notFound ∧
+    (basicCompute 100 exK exS (some { exQ with localTrustId := "zz" })).2 = .notFound ∧
+    (basicCompute 100 exK exS none).2 = .invalidArgument := by decide +kernel
+example : BadParams { exQ with alpha := some 2 } :=
+  Or.inl ⟨2, rfl, Or.inr (by norm_num)⟩
+example : PreOK exS exQ := Or.inr (by decide +kernel)
+
+end examples
+
 end EtVerif.C17
